@@ -1,4 +1,5 @@
 import JaqalProofs.Lemmas.NumText
+import JaqalProofs.Lemmas.NumTextRegex
 /-!
 # C01, literal layer: numbers written by the code generator are read back by the lexer as the same
 value, and writing again gives the same text.
@@ -224,6 +225,26 @@ example : matchNumber ("1.0e-06 2.5\n".toList) = some ("1.0e-06".toList, " 2.5\n
 example : matchNumber ("15 2.5\n".toList) = none ∧
     matchInt ("15 2.5\n".toList) = some ("15".toList, " 2.5\n".toList) := by decide
 
+/-! ## the readers are the token regular expressions
+
+`Lemmas/NumTextRegex.lean` defines a generic backtracking matcher `Re.run` (greedy star and option,
+alternatives tried in Python's priority order) and the two token expressions `numberRe`, `intRe` in it.
+`matchNumber` / `matchInt` return exactly the first match that matcher finds: same remaining input
+(hence same success/failure), and the matched text is the consumed prefix. -/
+theorem C01_readers_are_the_regexes (cs : List Char) :
+    numberRe.run some cs = (matchNumber cs).map (·.2) ∧
+    (∀ m r, matchNumber cs = some (m, r) → m ++ r = cs) ∧
+    intRe.run some cs = (matchInt cs).map (·.2) ∧
+    (∀ m r, matchInt cs = some (m, r) → m ++ r = cs) := by
+  refine ⟨?_, fun m r h => matchNumber_prefix h, ?_, fun m r h => matchInt_prefix h⟩
+  · rw [numberRe_run, matchNumber, Option.map_map]; rfl
+  · rw [intRe_run, matchInt, Option.map_map]; rfl
+
+example : numberRe.run some "1.5e+3x".toList = some ['x'] := by decide
+example : numberRe.run some "1.5e+x".toList = some "e+x".toList := by decide   -- exponent group skipped
+example : numberRe.run some "1e-06".toList = none := by decide
+
+#print axioms C01_readers_are_the_regexes
 #print axioms C01_float_roundtrip_normalize
 #print axioms C01_float_roundtrip
 #print axioms C01_float_stable
